@@ -2,8 +2,17 @@ package main
 
 // G6/G7 for the sender (C13): the constants the model is parameterised by and
 // the critical-section facts behind the model's event granularity, extracted
-// from spine/send.go with go/ast. An anchor that disappears is reported as a
-// fact with value 0/false plus a note, never silently.
+// from package spine with go/ast. The extraction is STRUCTURAL: the whole
+// package is read (a method may live in any file), and everything unexported
+// is found by what it is, not by what it is called —
+//   the counter field      = the Sender field that is the operand of an atomic add
+//   the counter method     = the Sender method holding that atomic add
+//   the send method        = the Sender method calling WriteShipMessageWithPayload
+//   the request cache      = the Sender field of map type keyed by the message counter
+//   the request lock       = the mutex field locked by the first statement of Request
+// Exported names (Sender, NewSender, Request, the api.SenderInterface methods)
+// are the anchors. An anchor that disappears is reported as a fact with value
+// 0/false plus a note, never silently.
 
 import (
 	"fmt"
@@ -17,28 +26,6 @@ import (
 	"strings"
 )
 
-// senderFieldType returns the source text of the type of a field of struct Sender ("" when absent).
-func senderFieldType(f *ast.File, field string) string {
-	out := ""
-	ast.Inspect(f, func(n ast.Node) bool {
-		ts, ok := n.(*ast.TypeSpec)
-		if !ok || ts.Name.Name != "Sender" {
-			return true
-		}
-		if st, ok := ts.Type.(*ast.StructType); ok {
-			for _, fl := range st.Fields.List {
-				for _, nm := range fl.Names {
-					if nm.Name == field {
-						out = exprString(fl.Type)
-					}
-				}
-			}
-		}
-		return false
-	})
-	return out
-}
-
 func init() { register("sender", genSender) }
 
 func findFunc(f *ast.File, recv, name string) *ast.FuncDecl {
@@ -50,17 +37,18 @@ func findFunc(f *ast.File, recv, name string) *ast.FuncDecl {
 		if recv == "" && fd.Recv == nil {
 			return fd
 		}
-		if fd.Recv != nil && len(fd.Recv.List) == 1 {
-			t := fd.Recv.List[0].Type
-			if st, ok := t.(*ast.StarExpr); ok {
-				t = st.X
-			}
-			if id, ok := t.(*ast.Ident); ok && id.Name == recv {
-				return fd
-			}
+		if fd.Recv != nil && recvTypeName(fd) == recv {
+			return fd
 		}
 	}
 	return nil
+}
+
+func recvVarName(fd *ast.FuncDecl) string {
+	if fd.Recv == nil || len(fd.Recv.List) != 1 || len(fd.Recv.List[0].Names) != 1 {
+		return ""
+	}
+	return fd.Recv.List[0].Names[0].Name
 }
 
 func exprString(e ast.Expr) string {
@@ -75,34 +63,54 @@ func exprString(e ast.Expr) string {
 		return exprString(x.X)
 	case *ast.IndexListExpr:
 		return exprString(x.X)
+	case *ast.StarExpr:
+		return "*" + exprString(x.X)
+	case *ast.MapType:
+		return "map[" + exprString(x.Key) + "]" + exprString(x.Value)
+	case *ast.ParenExpr:
+		return exprString(x.X)
 	}
 	return fmt.Sprintf("%T", e)
 }
 
-// pkgIntConsts collects the package-level integer constants of a directory (name -> value) so that a literal
-// that was given a name (`const maxUnansweredRequests = 20`) is still read as its value.
-func pkgIntConsts(dir string) map[string]int {
-	out := map[string]int{}
+// spinePackage parses every non-test file of package spine of the tree under test.
+func spinePackage() (*token.FileSet, []*ast.File, error) {
 	fset := token.NewFileSet()
-	pkgs, err := parser.ParseDir(fset, dir, func(fi fs.FileInfo) bool { return !strings.HasSuffix(fi.Name(), "_test.go") }, 0)
+	pkgs, err := parser.ParseDir(fset, filepath.Join(RepoDir(), "spine"), func(fi fs.FileInfo) bool { return !strings.HasSuffix(fi.Name(), "_test.go") }, 0)
 	if err != nil {
-		return out
+		return nil, nil, err
 	}
+	var files []*ast.File
+	var names []string
 	for _, pk := range pkgs {
-		for _, f := range pk.Files {
-			for _, d := range f.Decls {
-				gd, ok := d.(*ast.GenDecl)
-				if !ok || gd.Tok != token.CONST {
-					continue
-				}
-				for _, sp := range gd.Specs {
-					vs := sp.(*ast.ValueSpec)
-					for i, n := range vs.Names {
-						if i < len(vs.Values) {
-							if lit, ok := vs.Values[i].(*ast.BasicLit); ok && lit.Kind == token.INT {
-								if v, err := strconv.Atoi(lit.Value); err == nil {
-									out[n.Name] = v
-								}
+		for n := range pk.Files {
+			names = append(names, n)
+		}
+		sort.Strings(names)
+		for _, n := range names {
+			files = append(files, pk.Files[n])
+		}
+	}
+	return fset, files, nil
+}
+
+// pkgIntConsts collects the package-level integer constants (name -> value) so that a literal
+// that was given a name (`const maxUnansweredRequests = 20`) is still read as its value.
+func pkgIntConsts(files []*ast.File) map[string]int {
+	out := map[string]int{}
+	for _, f := range files {
+		for _, d := range f.Decls {
+			gd, ok := d.(*ast.GenDecl)
+			if !ok || gd.Tok != token.CONST {
+				continue
+			}
+			for _, sp := range gd.Specs {
+				vs := sp.(*ast.ValueSpec)
+				for i, n := range vs.Names {
+					if i < len(vs.Values) {
+						if lit, ok := vs.Values[i].(*ast.BasicLit); ok && lit.Kind == token.INT {
+							if v, err := strconv.Atoi(lit.Value); err == nil {
+								out[n.Name] = v
 							}
 						}
 					}
@@ -127,28 +135,166 @@ func intOf(e ast.Expr, consts map[string]int) (int, bool) {
 	return 0, false
 }
 
+// structFields returns field name -> type text of a struct type of the package; named map types are resolved.
+func structFields(files []*ast.File, typeName string) map[string]string {
+	named := map[string]string{}
+	for _, f := range files {
+		ast.Inspect(f, func(n ast.Node) bool {
+			if ts, ok := n.(*ast.TypeSpec); ok {
+				if mt, ok := ts.Type.(*ast.MapType); ok {
+					named[ts.Name.Name] = exprString(mt)
+				}
+			}
+			return true
+		})
+	}
+	out := map[string]string{}
+	for _, f := range files {
+		ast.Inspect(f, func(n ast.Node) bool {
+			ts, ok := n.(*ast.TypeSpec)
+			if !ok || ts.Name.Name != typeName {
+				return true
+			}
+			if st, ok := ts.Type.(*ast.StructType); ok {
+				for _, fl := range st.Fields.List {
+					t := exprString(fl.Type)
+					if r, ok := named[t]; ok {
+						t = r
+					}
+					for _, nm := range fl.Names {
+						out[nm.Name] = t
+					}
+				}
+			}
+			return false
+		})
+	}
+	return out
+}
+
 func genSender(outDir string) (string, error) {
-	fset := token.NewFileSet()
-	f, err := parser.ParseFile(fset, filepath.Join(RepoDir(), "spine", "send.go"), nil, 0)
+	_, files, err := spinePackage()
 	if err != nil {
 		return "", err
 	}
-	consts := pkgIntConsts(filepath.Join(RepoDir(), "spine"))
+	consts := pkgIntConsts(files)
+	fields := structFields(files, "Sender")
 	var notes []string
-	limit, cap := 0, 0
-	// every Sender method of send.go, by name
+	// every Sender method of the package, by name
 	methods := map[string]*ast.FuncDecl{}
-	for _, d := range f.Decls {
-		if fd, ok := d.(*ast.FuncDecl); ok && fd.Recv != nil && fd.Body != nil && findFunc(f, "Sender", fd.Name.Name) == fd {
-			methods[fd.Name.Name] = fd
+	var newSender *ast.FuncDecl
+	for _, f := range files {
+		for _, d := range f.Decls {
+			if fd, ok := d.(*ast.FuncDecl); ok && fd.Body != nil {
+				if recvTypeName(fd) == "Sender" {
+					methods[fd.Name.Name] = fd
+				}
+				if fd.Recv == nil && fd.Name.Name == "NewSender" {
+					newSender = fd
+				}
+			}
 		}
 	}
-	// reqMsgCache limit: the comparison `len(c.reqMsgCache) > N` (or `>= N+1`), N a literal or a named constant,
-	// wherever in the Sender's methods it stands
-	for _, fd := range methods {
+	var names []string
+	for name := range methods {
+		names = append(names, name)
+	}
+	sort.Strings(names)
+	// sel reports whether e is <receiver of fd>.<field>
+	sel := func(fd *ast.FuncDecl, e ast.Expr, field string) bool {
+		s, ok := e.(*ast.SelectorExpr)
+		if !ok {
+			return false
+		}
+		id, ok := s.X.(*ast.Ident)
+		return ok && id.Name == recvVarName(fd) && s.Sel.Name == field
+	}
+
+	// --- the counter: field, method, atomicity --------------------------------------------------
+	counterField, counterMethod := "", ""
+	atomicAdds := 0
+	for _, name := range names {
+		fd := methods[name]
+		ast.Inspect(fd, func(n ast.Node) bool {
+			c, ok := n.(*ast.CallExpr)
+			if !ok {
+				return true
+			}
+			// atomic.AddUint64(&recv.F, 1)
+			if exprString(c.Fun) == "atomic.AddUint64" && len(c.Args) == 2 {
+				if u, ok := c.Args[0].(*ast.UnaryExpr); ok && u.Op == token.AND {
+					if s, ok := u.X.(*ast.SelectorExpr); ok && sel(fd, s, s.Sel.Name) && fields[s.Sel.Name] == "uint64" {
+						counterField, counterMethod = s.Sel.Name, name
+						atomicAdds++
+					}
+				}
+			}
+			// recv.F.Add(1) with F of type atomic.Uint64
+			if s, ok := c.Fun.(*ast.SelectorExpr); ok && s.Sel.Name == "Add" && len(c.Args) == 1 {
+				if in, ok := s.X.(*ast.SelectorExpr); ok && sel(fd, in, in.Sel.Name) && fields[in.Sel.Name] == "atomic.Uint64" {
+					counterField, counterMethod = in.Sel.Name, name
+					atomicAdds++
+				}
+			}
+			return true
+		})
+	}
+	counterAtomic := false
+	if atomicAdds == 1 {
+		// the counter field is mentioned nowhere else in the package's Sender methods
+		mentions := 0
+		for _, name := range names {
+			fd := methods[name]
+			ast.Inspect(fd, func(n ast.Node) bool {
+				if s, ok := n.(*ast.SelectorExpr); ok && sel(fd, s, counterField) {
+					mentions++
+				}
+				return true
+			})
+		}
+		counterAtomic = mentions == 1
+		if !counterAtomic {
+			notes = append(notes, fmt.Sprintf("counter field %s is mentioned %d times in the Sender's methods", counterField, mentions))
+		}
+	} else {
+		notes = append(notes, fmt.Sprintf("%d atomic adds on a Sender field found (want exactly one)", atomicAdds))
+	}
+
+	// --- the send method: the one that hands bytes to the connection ------------------------------
+	sendMethod := ""
+	for _, name := range names {
+		ast.Inspect(methods[name], func(n ast.Node) bool {
+			if c, ok := n.(*ast.CallExpr); ok {
+				if s, ok := c.Fun.(*ast.SelectorExpr); ok && s.Sel.Name == "WriteShipMessageWithPayload" {
+					if sendMethod != "" && sendMethod != name {
+						notes = append(notes, "more than one Sender method writes to the connection: "+sendMethod+", "+name)
+					}
+					sendMethod = name
+				}
+			}
+			return true
+		})
+	}
+	if sendMethod == "" {
+		notes = append(notes, "no Sender method calls WriteShipMessageWithPayload")
+	}
+
+	// --- the request cache: map field keyed by the counter, its limit ----------------------------
+	cacheField := ""
+	for f, t := range fields {
+		if strings.HasPrefix(t, "map[model.MsgCounterType]") {
+			if cacheField != "" {
+				notes = append(notes, "more than one map field keyed by the message counter")
+			}
+			cacheField = f
+		}
+	}
+	limit, cap := 0, 0
+	for _, name := range names {
+		fd := methods[name]
 		ast.Inspect(fd, func(n ast.Node) bool {
 			if be, ok := n.(*ast.BinaryExpr); ok && (be.Op == token.GTR || be.Op == token.GEQ) {
-				if c, ok := be.X.(*ast.CallExpr); ok && exprString(c.Fun) == "len" && len(c.Args) == 1 && exprString(c.Args[0]) == "c.reqMsgCache" {
+				if c, ok := be.X.(*ast.CallExpr); ok && exprString(c.Fun) == "len" && len(c.Args) == 1 && cacheField != "" && sel(fd, c.Args[0], cacheField) {
 					if v, ok := intOf(be.Y, consts); ok {
 						limit = v
 						if be.Op == token.GEQ {
@@ -161,11 +307,11 @@ func genSender(outDir string) (string, error) {
 		})
 	}
 	if limit == 0 {
-		notes = append(notes, "anchor `len(c.reqMsgCache) > N` not found in the Sender's methods")
+		notes = append(notes, "anchor `len(<request cache>) > N` not found in the Sender's methods")
 	}
 	// notify cache capacity: lrucache.New[...](N, 0) in NewSender
-	if fd := findFunc(f, "", "NewSender"); fd != nil {
-		ast.Inspect(fd, func(n ast.Node) bool {
+	if newSender != nil {
+		ast.Inspect(newSender, func(n ast.Node) bool {
 			if c, ok := n.(*ast.CallExpr); ok && exprString(c.Fun) == "lrucache.New" && len(c.Args) >= 1 {
 				if v, ok := intOf(c.Args[0], consts); ok {
 					cap = v
@@ -177,46 +323,31 @@ func genSender(outDir string) (string, error) {
 	if cap == 0 {
 		notes = append(notes, "anchor `lrucache.New[…](N, …)` not found in NewSender")
 	}
-	// Request is one critical section: first two statements lock/defer-unlock muxRequestSend
+
+	// --- Request is one critical section: its first two statements lock a mutex field and defer its unlock --
 	requestOneRegion := false
-	if fd := findFunc(f, "Sender", "Request"); fd != nil && len(fd.Body.List) >= 2 {
+	if fd := methods["Request"]; fd != nil && len(fd.Body.List) >= 2 {
 		s0, ok0 := fd.Body.List[0].(*ast.ExprStmt)
 		s1, ok1 := fd.Body.List[1].(*ast.DeferStmt)
 		if ok0 && ok1 {
-			c0, okc := s0.X.(*ast.CallExpr)
-			if okc && exprString(c0.Fun) == "c.muxRequestSend.Lock" && exprString(s1.Call.Fun) == "c.muxRequestSend.Unlock" {
-				requestOneRegion = true
+			if c0, ok := s0.X.(*ast.CallExpr); ok {
+				l, okl := c0.Fun.(*ast.SelectorExpr)
+				u, oku := s1.Call.Fun.(*ast.SelectorExpr)
+				if okl && oku && l.Sel.Name == "Lock" && u.Sel.Name == "Unlock" && exprString(l.X) == exprString(u.X) {
+					if m, ok := l.X.(*ast.SelectorExpr); ok && sel(fd, m, m.Sel.Name) && fields[m.Sel.Name] == "sync.Mutex" {
+						requestOneRegion = true
+					}
+				}
 			}
 		}
 	}
-	// the counter is drawn by one atomic add: `atomic.AddUint64(&c.msgNum, 1)` or, for a field of type
-	// atomic.Uint64, `c.msgNum.Add(1)`; msgNum is mentioned nowhere else in getMsgCounter
-	counterAtomic := false
-	if fd := findFunc(f, "Sender", "getMsgCounter"); fd != nil {
-		adds, other := 0, 0
-		ast.Inspect(fd, func(n ast.Node) bool {
-			switch x := n.(type) {
-			case *ast.CallExpr:
-				if exprString(x.Fun) == "atomic.AddUint64" && len(x.Args) == 2 {
-					if u, ok := x.Args[0].(*ast.UnaryExpr); ok && u.Op == token.AND && exprString(u.X) == "c.msgNum" {
-						adds++
-					}
-				}
-				if exprString(x.Fun) == "c.msgNum.Add" && len(x.Args) == 1 && senderFieldType(f, "msgNum") == "atomic.Uint64" {
-					adds++
-				}
-			case *ast.SelectorExpr:
-				if exprString(x) == "c.msgNum" {
-					other++
-				}
-			}
-			return true
-		})
-		counterAtomic = adds == 1 && other == 1 // the only mention of msgNum is inside the atomic add
+	if !requestOneRegion {
+		notes = append(notes, "Request does not start with <mutex field>.Lock(); defer <same>.Unlock()")
 	}
-	// every exported way of sending draws its counter exactly once per datagram handed to the connection: call
-	// sites of getMsgCounter and of sendSpineMessage are counted through the calls among the Sender's own methods
-	// (a datagram built in an extracted helper counts for its callers)
+
+	// --- every exported way of sending draws its counter exactly once per datagram handed to the connection:
+	// call sites of the counter method and of the send method are counted through the calls among the Sender's
+	// own methods (a datagram built in an extracted helper counts for its callers)
 	var count func(name, target string, seen map[string]bool) int
 	count = func(name, target string, seen map[string]bool) int {
 		fd := methods[name]
@@ -228,11 +359,13 @@ func genSender(outDir string) (string, error) {
 		n := 0
 		ast.Inspect(fd, func(x ast.Node) bool {
 			if c, ok := x.(*ast.CallExpr); ok {
-				if sel, ok := c.Fun.(*ast.SelectorExpr); ok && exprString(sel.X) == "c" {
-					if sel.Sel.Name == target {
-						n++
-					} else if sel.Sel.Name != "getMsgCounter" && sel.Sel.Name != "sendSpineMessage" {
-						n += count(sel.Sel.Name, target, seen)
+				if s, ok := c.Fun.(*ast.SelectorExpr); ok {
+					if id, ok := s.X.(*ast.Ident); ok && id.Name == recvVarName(fd) {
+						if s.Sel.Name == target {
+							n++
+						} else if s.Sel.Name != counterMethod && s.Sel.Name != sendMethod {
+							n += count(s.Sel.Name, target, seen)
+						}
 					}
 				}
 			}
@@ -240,19 +373,14 @@ func genSender(outDir string) (string, error) {
 		})
 		return n
 	}
-	oneDraw := true
+	oneDraw := counterMethod != "" && sendMethod != ""
 	senders := 0
-	var names []string
-	for name := range methods {
-		names = append(names, name)
-	}
-	sort.Strings(names)
 	for _, name := range names {
-		if !ast.IsExported(name) {
+		if !ast.IsExported(name) || !oneDraw {
 			continue
 		}
-		sends := count(name, "sendSpineMessage", map[string]bool{})
-		draws := count(name, "getMsgCounter", map[string]bool{})
+		sends := count(name, sendMethod, map[string]bool{})
+		draws := count(name, counterMethod, map[string]bool{})
 		if sends > 0 {
 			senders++
 		}
@@ -261,18 +389,19 @@ func genSender(outDir string) (string, error) {
 			notes = append(notes, fmt.Sprintf("%s hands %d datagram(s) to the connection and draws %d counter(s)", name, sends, draws))
 		}
 	}
-	if senders < 5 {
+	if oneDraw && senders < 5 {
 		oneDraw = false
-		notes = append(notes, fmt.Sprintf("only %d exported Sender methods reach sendSpineMessage", senders))
+		notes = append(notes, fmt.Sprintf("only %d exported Sender methods reach the send method", senders))
 	}
+
 	var b strings.Builder
-	b.WriteString("/-! GENERATED by go/cmd/translate (generator `sender`) from spine/send.go — do not edit. -/\n")
+	b.WriteString("/-! GENERATED by go/cmd/translate (generator `sender`) from package spine (Sender) — do not edit. -/\n")
 	b.WriteString("namespace Spine.Generated.Sender\n\n")
-	fmt.Fprintf(&b, "/-- `len(c.reqMsgCache) > N` in addMsgCounterHashToCache -/\ndef reqCacheLimit : Nat := %d\n\n", limit)
+	fmt.Fprintf(&b, "/-- `len(<request cache>) > N` in the Sender's methods (request cache = the map field keyed by the message counter: %s) -/\ndef reqCacheLimit : Nat := %d\n\n", cacheField, limit)
 	fmt.Fprintf(&b, "/-- capacity passed to lrucache.New in NewSender -/\ndef notifyCacheCap : Nat := %d\n\n", cap)
-	fmt.Fprintf(&b, "/-- Request locks muxRequestSend first and unlocks it by defer: lookup, send and insert are one critical section -/\ndef requestOneRegion : Bool := %v\n\n", requestOneRegion)
-	fmt.Fprintf(&b, "/-- getMsgCounter's only access to msgNum is one atomic.AddUint64 -/\ndef counterAtomic : Bool := %v\n\n", counterAtomic)
-	fmt.Fprintf(&b, "/-- every exported Sender method draws exactly one counter (getMsgCounter) per datagram it hands to the connection (sendSpineMessage), at most one datagram per call; call sites counted through the Sender's own methods -/\ndef oneDrawPerSend : Bool := %v\n\n", oneDraw)
+	fmt.Fprintf(&b, "/-- Request locks a mutex field first and unlocks it by defer: lookup, send and insert are one critical section -/\ndef requestOneRegion : Bool := %v\n\n", requestOneRegion)
+	fmt.Fprintf(&b, "/-- the only access of the Sender's methods to the counter field (%s) is one atomic add (in %s) -/\ndef counterAtomic : Bool := %v\n\n", counterField, counterMethod, counterAtomic)
+	fmt.Fprintf(&b, "/-- every exported Sender method draws exactly one counter (%s) per datagram it hands to the connection (%s), at most one datagram per call; call sites counted through the Sender's own methods -/\ndef oneDrawPerSend : Bool := %v\n\n", counterMethod, sendMethod, oneDraw)
 	for _, n := range notes {
 		fmt.Fprintf(&b, "-- note: %s\n", n)
 	}
